@@ -84,7 +84,8 @@ func (s *state) clone() *state {
 // whole pattern "*" is used.
 type ruleSelector struct {
 	path  map[string]*ruleSelector
-	rules []*annotations.HttpRule
+	rules []*annotations.HttpRule // wildcard rules, apply to every name below
+	exact []*annotations.HttpRule // rules whose selector ends at this element
 }
 
 func (r *ruleSelector) write(w io.Writer, indent string) {
@@ -103,10 +104,10 @@ func (r *ruleSelector) String() string {
 }
 
 func (r *ruleSelector) getRules(name string) (rules []*annotations.HttpRule) {
-	rules = append(rules, r.rules...)
 	if name == "" {
-		return rules
+		return append(rules, r.exact...)
 	}
+	rules = append(rules, r.rules...)
 	tag, name, _ := strings.Cut(name, ".")
 	if r = r.path[tag]; r != nil {
 		return append(rules, r.getRules(name)...)
@@ -128,7 +129,7 @@ func (r *ruleSelector) setRules(rules []*annotations.HttpRule) {
 				}
 				r.rules = append(r.rules, rule)
 			case "":
-				r.rules = append(r.rules, rule)
+				r.exact = append(r.exact, rule)
 			default:
 				rs := r.path[tag]
 				if rs == nil {
